@@ -80,28 +80,26 @@ def _counted_impl(mod, case):
 
 def _safe_impl(mod, case):
     limit = float(os.environ.get("VERIF_CASE_TIMEOUT") or getattr(mod, "CASE_TIMEOUT", 20))
-    try:
-        return call_limited(mod.run_impl, limit, case)
-    except Hang:
-        pass
     # A wall-clock watchdog can fire on a starved machine; a real hang hangs again.  Retry once with a
     # much longer limit before calling it a hang.
-    try:
-        return call_limited(mod.run_impl, max(90.0, 2 * limit), case)
-    except Hang:
-        return {"harness_exc": "Hang"}
-    except BaseException as e:  # run_impl is expected to canonicalise; this is a harness-level escape
-        if isinstance(e, KeyboardInterrupt):
-            raise
+    for lim in (limit, max(90.0, 2 * limit)):
         try:
-            msg = str(e)
-        except BaseException:      # e.g. tornado.web.HTTPError.__str__ with a mismatched log_message format
-            msg = "<unprintable>"
-        try:
-            tb = traceback.format_exc()[-800:]
-        except BaseException:
-            tb = ""
-        return {"harness_exc": "%s: %s" % (type(e).__name__, msg), "tb": tb}
+            return call_limited(mod.run_impl, lim, case)
+        except Hang:
+            continue
+        except BaseException as e:  # run_impl is expected to canonicalise; this is a harness-level escape
+            if isinstance(e, KeyboardInterrupt):
+                raise
+            try:
+                msg = str(e)
+            except BaseException:      # e.g. tornado.web.HTTPError.__str__ with a mismatched log_message format
+                msg = "<unprintable>"
+            try:
+                tb = traceback.format_exc()[-800:]
+            except BaseException:
+                tb = ""
+            return {"harness_exc": "%s: %s" % (type(e).__name__, msg), "tb": tb}
+    return {"harness_exc": "Hang"}
 
 
 class Run:
